@@ -877,6 +877,25 @@ def replay_colour_references(index, ob, seed, saved=None):
                     if got_idx in (None, 0) or entry(got_idx) is None or entry(got_idx).strip() != rgb_of(want_name).strip():
                         return _r(True, input=dict(inp, cell=[i, j]), observed=f"{what} index {got_idx} -> table entry {entry(got_idx) if got_idx else None!r}",
                                   expected=f"{want_name} = {rgb_of(want_name)!r}")
+    # 2b. page_by shown as heading rows: rows below a group heading inside a page are encoded with a row offset; colours vary by row
+    rowcols = ["red", "blue", "green", "gold", "navy", "orchid"]
+    dfp = pl.DataFrame({"g": ["A", "A", "A", "B", "B", "B"], "x": [f"r{i}" for i in range(6)], "y": [f"v{i}" for i in range(6)]})
+    tcm = [[c, c, c] for c in rowcols]
+    inp = {"page_by": ["g"], "text_color_per_row": rowcols}
+    try:
+        s = rtf.RTFDocument(df=dfp, rtf_body=rtf.RTFBody(page_by=["g"], new_page=False, text_color=tcm, as_colheader=False)).rtf_encode()
+    except Exception as e:
+        return _r(True, input=inp, observed=f"{type(e).__name__}: {e}")
+    ct = re.search(r"\{\\colortbl\s*;([^}]*)\}", s)
+    table = [e for e in (ct.group(1).replace("\n", "").split(";") if ct else []) if e.strip() != ""]
+    drows = [r for p in parse(s).pages for r in p.rows if len(r.cells) == 2]
+    if len(drows) == 6:
+        for i, r in enumerate(drows):
+            want = svc.get_color_rtf_code(rowcols[i]).rstrip(";").strip()
+            for cell in r.cells:
+                got = table[cell.cf - 1].strip() if cell.cf and 1 <= cell.cf <= len(table) else None
+                if got != want:
+                    return _r(True, input=dict(inp, row=i), observed=f"text colour index {cell.cf} -> table entry {got!r}", expected=f"{rowcols[i]} = {want!r}")
     # 3. multi-section documents: each section has its own palette, references resolve in the ONE colour table of the document
     for pal in (["red", "darkgreen"], ["navy", "gold", "orchid"], ["blue", "blue"]):
         dfs = [pl.DataFrame({"a": [f"s{k}r{i}" for i in range(2)], "b": [f"s{k}x{i}" for i in range(2)]}) for k in range(len(pal))]
